@@ -115,7 +115,8 @@ Section Builder.
     if negb (pos <? end_) then Ok (pos, acc, deep)               (* loop exit; *recursion_level -= 1 *)
     else
       match bh_read buf pos with
-      | Err _ => Ok (end_, acc, deep)                            (* skip_bytes_to(end); break *)
+      | Err _ => Ok (end_, acc, deep)       (* UnexpectedEof (the only read failure of a Cursor): skip_bytes_to(end);
+                                               break.  Since a0a6903a3 any other I/O error is returned instead *)
       | Panic s x y => Panic s x y
       | OutOfFuel => OutOfFuel
       | Ok (typ, size, large, p1) =>
